@@ -80,7 +80,7 @@ PROPS = {
         'theorems': 'Properties/C05', 'obligation_files': [],
         'profiles': [SAO, SAOLONG],
         'projection': ['bank.Balance', 'order.Order+keys', 'order.Shard+keys', 'model.Metadata', 'model.Model', 'model.ExpiredData'],
-        'monitors': ['sched.expdata_live', 'sched.meta_scheduled', 'ref.model_alias', 'rollback.'], 'families': ['sao', 'block'],
+        'monitors': ['sched.expdata_live', 'sched.meta_scheduled', 'sched.meta_expiry_is_shard_end', 'ref.model_alias', 'rollback.'], 'families': ['sao', 'block'],
     },
     'C06': {
         'theorems': 'Properties/C06', 'scenarios': ['flow-debt-claim'], 'obligation_files': ['Obligations/ObShape'],
@@ -92,7 +92,7 @@ PROPS = {
         'theorems': 'Properties/C07', 'scenarios': ['flow-debt-claim', 'flow-renew2-migrate'], 'obligation_files': [],
         'profiles': [SAO, SAOLONG, NODE],
         'projection': ['bank.Balance', 'node.Pledge#0', 'node.Pledge#1', 'node.Pledge#4', 'node.Pledge#5', 'node.PledgeDebt', 'order.Shard#4', 'order.Shard#9'],
-        'monitors': ['agg.used_bounds', 'agg.shpledged_is_sum', 'agg.used_is_sum', 'frame.node_msgs', 'solv.node'], 'families': ['sao', 'block', 'node'],
+        'monitors': ['agg.used_bounds', 'agg.shpledged_is_sum', 'agg.used_is_sum', 'frame.node_msgs', 'solv.node', 'coll.release_exact'], 'families': ['sao', 'block', 'node'],
     },
     'C08': {
         'theorems': 'Properties/C08', 'scenarios': ['flow-debt-claim'], 'obligation_files': ['Obligations/ObShape'],
@@ -117,7 +117,7 @@ PROPS = {
         'profiles': [SAOLONG, SAO],
         'projection': ['order.Shard+keys', 'order.Shard#7', 'order.Shard#8', 'order.Shard#9', 'order.Order+keys', 'model.Metadata+keys', 'model.Metadata#11',
                        'sao.ExpiredShard', 'model.ExpiredData', 'node.Pledge#5', 'node.Pledge#1', 'market.Worker'],
-        'monitors': ['ref.completed_scheduled', 'sched.meta_scheduled', 'sched.expdata_live', 'sched.meta_covers_shards', 'sched.meta_covers_renewals', 'sched.future'], 'families': ['block', 'sao'],
+        'monitors': ['ref.completed_scheduled', 'sched.meta_scheduled', 'sched.expdata_live', 'sched.meta_covers_shards', 'sched.meta_covers_renewals', 'sched.meta_expiry_is_shard_end', 'sched.future'], 'families': ['block', 'sao'],
     },
     'C12': {
         'theorems': 'Properties/C12', 'obligation_files': ['Obligations/ObShape'],
